@@ -501,10 +501,11 @@ func (radius *RADIUS) SerializeTo(b gopacket.SerializeBuffer, opts gopacket.Seri
 	pos := radiusMinimumRecordSizeInBytes
 	for _, v := range radius.Attributes {
 		if opts.FixLengths {
-			v.Length, err = attributeValueLength(v.Value)
+			alen, err := attributeValueLength(v.Value)
 			if err != nil {
 				return err
 			}
+			v.Length = alen + 2 // Added Type and Length
 		}
 
 		data[pos] = byte(v.Type)
@@ -553,7 +554,7 @@ func decodeRADIUS(data []byte, p gopacket.PacketBuilder) error {
 
 func attributeValueLength(v []byte) (RADIUSAttributeLength, error) {
 	n := len(v)
-	if n > 255 {
+	if n > 253 { // the one-octet attribute Length counts Type and Length too
 		return 0, fmt.Errorf("RADIUS attribute value length %d too long", n)
 	} else {
 		return RADIUSAttributeLength(n), nil
